@@ -367,7 +367,7 @@ func (d *Driver) runKeyMaterial() error {
 	inputs := map[string][]input{"signer": signerIn, "httpsig": sigIn, "tls": tlsIn}
 
 	for _, e := range entries {
-		for _, in := range inputs[e.name] {
+		for _, in := range d.withOverrides(e.name, inputs[e.name]) {
 			if !d.want(in.id) {
 				continue
 			}
@@ -396,7 +396,7 @@ func (d *Driver) runKeyMaterial() error {
 		tsInputs = append(tsInputs, d.mutations("truststore", "ca-chain", chain, 2000)...)
 	}
 
-	for _, in := range tsInputs {
+	for _, in := range d.withOverrides("truststore", tsInputs) {
 		if !d.want(in.id) {
 			continue
 		}
@@ -419,7 +419,8 @@ func (d *Driver) runKeyMaterial() error {
 			}()
 
 			d.emit(Event{Ev: "feed", ID: in.id, Entry: "truststore", Class: class, Outcome: outcome, StateKept: true,
-				Alive: true, Detail: short(detail), Via: fmt.Sprintf("truststore.NewTrustStoreFromPEMBytes(strict=%v)", strict)})
+				Alive: true, Detail: short(detail), Via: fmt.Sprintf("truststore.NewTrustStoreFromPEMBytes(strict=%v)", strict),
+				Input: b64(in)})
 		}
 	}
 
@@ -474,5 +475,5 @@ func (d *Driver) feedFile(e keyEntry, in input) {
 
 	d.emit(Event{Ev: "feed", ID: in.id, Entry: e.name, Class: in.class, Outcome: outcome,
 		StateKept: before == after && !strings.HasPrefix(after, "panic"), Alive: true, Detail: short(detail),
-		Via: "watcher.ChangeListener.OnChanged"})
+		Via: "watcher.ChangeListener.OnChanged", Input: b64(in)})
 }
